@@ -59,6 +59,16 @@ def check(events, statements, outcome, lock_before, lock_after,
     else:
         if names:
             out.append(('signals-without-evolving', {'names': names[:5]}))
+    # nothing may be reported as done after the statement that failed
+    failed_at = [s for (s, q, p, f) in statements if f is not None]
+    if failed_at and outcome != 'ok':
+        sf = min(failed_at)
+        for seq, name, payload in events:
+            if seq > sf and name in ('applied_evolution', 'created_models',
+                                     'applied_migration', 'evolved'):
+                out.append(('%s-emitted-after-the-failing-statement' % name,
+                            {'payload': str(payload)[:200]}))
+                break
     # pairing
     pairs = (('applying_evolution', 'applied_evolution'),
              ('applying_migration', 'applied_migration'),
@@ -88,7 +98,12 @@ def check(events, statements, outcome, lock_before, lock_after,
         if open_ and outcome == 'ok':
             out.append(('%s-never-followed-by-%s' % (start, end),
                         {'payload': open_[0][1]}))
-        if len(open_) > 1:
+        if len(open_) > 1 and start != 'creating_models':
+            # creating_models is sent for every app of a creation batch
+            # before the batch's SQL runs, so a fault in that SQL leaves
+            # several of them open - which the property allows ("unless the
+            # run fails in between"); evolutions and migrations are applied
+            # one at a time
             out.append(('several-%s-left-open' % start, {'n': len(open_)}))
     # every non-bookkeeping effect statement lies inside some pair
     spans = []
